@@ -226,3 +226,12 @@ func ByteIn(b byte, set string) bool {
 	}
 	return false
 }
+
+// ParamOr is Param with a default for jobs that do not set it.
+func ParamOr(name string, def int) int {
+	need()
+	if v, ok := w.Params[name]; ok {
+		return v
+	}
+	return def
+}
